@@ -1,5 +1,6 @@
 // C14: storage orders follow their published curves. Layers over identity<size1>: the field returns the flat position.
 // usage: c14 <rowmajor|morton|hilbert> <N> <quick|thorough>
+#include <limits>
 #include <algorithm>
 #include <cstdlib>
 #include <vp/layers.hpp>
@@ -98,15 +99,17 @@ static u64 ref_morton(const std::array<size_t, N> & c)
     return out;
 }
 
-template <size_t N>
+// I: scalar type of the coordinates handed to the layer (the curve is defined on coordinate values; a narrower coordinate
+// type over the same 64-bit storage index is a different instantiation and, possibly, different code)
+template <size_t N, class I = std::size_t>
 static void morton(Report & R, bool thorough)
 {
-    using BB = cb::morton<SizeN<N>, Id1, true>;
-    using BP = cb::morton<SizeN<N>, Id1, false>;
+    using BB = cb::morton<cv::vector_d<I, N>, Id1, true>;
+    using BP = cb::morton<cv::vector_d<I, N>, Id1, false>;
     static const unsigned bq[5] = {0, 14, 8, 5, 4}, bt[5] = {0, 20, 11, 7, 5};
     const unsigned b = thorough ? bt[N] : bq[N];
     const unsigned w = 64 / N;
-    const std::string k = "morton:N" + std::to_string(N);
+    const std::string k = "morton:N" + std::to_string(N) + (std::is_same_v<I, std::size_t> ? "" : (std::is_signed_v<I> ? ":int" : ":unsigned"));
     std::array<size_t, N> ext;
     ext.fill(w == 64 ? ~size_t(0) : (size_t(1) << w));
     auto fb = mk<BB, N>(ext);
@@ -115,10 +118,10 @@ static void morton(Report & R, bool thorough)
     covfie::field_view<BP> vp_(fp);
     auto one = [&](const std::array<size_t, N> & c) {
         for (size_t a = 0; a < N; ++a)
-            if (c[a] >= ext[a]) return;  // N=1: all-ones is outside the largest expressible extent
+            if (c[a] >= ext[a] || c[a] > static_cast<size_t>(std::numeric_limits<I>::max())) return;  // N=1: all-ones is outside the largest expressible extent
         u64 r = ref_morton<N>(c);
-        u64 gb = vb.at(to_cov<size_t, N>(c))[0];
-        u64 gp = vp_.at(to_cov<size_t, N>(c))[0];
+        u64 gb = vb.at(to_cov<I, N>(c))[0];
+        u64 gp = vp_.at(to_cov<I, N>(c))[0];
         ++R.evaluations;
         R.observe(gb);
         if (gb != r) R.viol(k + ":bmi2", "bmi2-selected implementation gives " + std::to_string(gb) + ", bit interleave is " + std::to_string(r), "morton N" + std::to_string(N) + " c" + vec_str(c, N));
@@ -146,7 +149,7 @@ static void morton(Report & R, bool thorough)
     R.nontrivial = R.evaluations;
     std::array<size_t, N> s;
     for (size_t a = 0; a < N; ++a) s[a] = 5 + a;
-    R.sample("morton N" + std::to_string(N) + " c" + vec_str(s, N) + " -> " + std::to_string(vb.at(to_cov<size_t, N>(s))[0]));
+    R.sample("morton N" + std::to_string(N) + " c" + vec_str(s, N) + " -> " + std::to_string(vb.at(to_cov<I, N>(s))[0]));
 }
 
 // ------------------------------------------------------------------ hilbert
@@ -220,7 +223,10 @@ int main(int argc, char ** argv)
     } else if (what == "morton") {
         if (n == 1) morton<1>(R, thorough);
         if (n == 2) morton<2>(R, thorough);
+        if (n == 2) morton<2, unsigned>(R, thorough);
+        if (n == 2) morton<2, int>(R, thorough);
         if (n == 3) morton<3>(R, thorough);
+        if (n == 3) morton<3, unsigned>(R, thorough);
         if (n == 4) morton<4>(R, thorough);
     } else {
         hilbert(R, thorough);
